@@ -5,6 +5,8 @@
 use vstd::prelude::*;
 verus! {
 global size_of usize == 8;
+//@extract consts src/blockchain/parser/blkfile.rs
+//@end
 
 #[allow(unused_macros)] macro_rules! debug { ($($t:tt)*) => { () } }
 #[allow(unused_macros)] macro_rules! format { ($($t:tt)*) => { crate::fmt_shim() } }
@@ -93,8 +95,6 @@ impl<R: Read> ReaderExt for R {
 }
 
 // ---- blkfile.rs --------------------------------------------------------------------------------------------
-//@extract type src/blockchain/parser/blkfile.rs :: const READER_BUFSIZE
-//@end
 //@extract type src/blockchain/parser/blkfile.rs :: struct BlkFile
 //@end
 
